@@ -13,7 +13,7 @@ import collections
 from harness import buildlib as B
 from harness.common import Run
 
-CONE = ["Base.v", "IR.v", "Show.v", "Build.v", "Sem.v", "Plan.v", "Named.v", "Validate.v", "BuildFacts.v", "SemFacts.v", "CompilePres.v", "ScopeFacts.v", "DfsFacts.v", "EmitFacts.v", "IOFacts.v", "SsaFacts.v"]
+CONE = ["Base.v", "IR.v", "Show.v", "Build.v", "Sem.v", "Plan.v", "Named.v", "Validate.v", "BuildFacts.v", "SemFacts.v", "CompilePres.v", "ScopeFacts.v", "DfsFacts.v", "EmitFacts.v", "IOFacts.v", "SsaFacts.v", "GlobalFacts.v"]
 PROPS = "props/C02.v"
 
 
@@ -111,6 +111,20 @@ def run(run: Run) -> int:
         c.coq = None
     cases = cases + mixed
     mism = B.correspondence(run, "c02", cases)
+    # premise of the validator-free whole-model uniqueness theorem, evaluated on every program that builds
+    built = [c for c in cases if c.coq is not None and c.model_proto is not None]
+    hdr = B.COQ_HEADER.replace("Build Show Validate.", "Build Show Validate GlobalFacts.")
+    flags = run.coq_eval("c02glob", hdr, [f"(has_inline_b {p}, global_premises_req {p} {r})" for p, r in (c.coq for c in built)],
+                         shard=max(1, min(40, (len(built) + 15) // 16)))
+    n_noinl = n_prem = 0
+    for c, x in zip(built, flags):
+        has_inl, ok = [t.strip() for t in x.strip().strip("()").split(",")]
+        if has_inl == "false":
+            n_noinl += 1
+            n_prem += ok == "true"
+            if ok != "true":
+                run.fail("corr", "C02/global-premise-not-met", "a program without inlined models that builds does not meet the premise of "
+                         "C02_value_names_unique_in_the_whole_model_by_construction (a source node twice in the unfolded ownership map)", B.describe(c))
     outcome_hist = collections.Counter()
     distinct = set()
     n_models = n_oracle_bad = 0
@@ -135,6 +149,7 @@ def run(run: Run) -> int:
                  B.describe(c))
     cov = {
         "evaluations": len(cases), "distinct_nontrivial": len(distinct),
+        "whole_model_uniqueness_premise_met": f"{n_prem} of {n_noinl} built programs without inlined models",
         "rule": "random nested programs (If/Loop/Scan bodies to depth 3, closures, sharing, leaks, multi-output, optional and "
                 "variadic inputs, initializers), user names benign or harvested from a previous build of the same program, "
                 "drop_unused_inputs in {False,True}; distinct by rendering; non-trivial = at least one subgraph",
